@@ -5,7 +5,9 @@ import (
 	"fmt"
 	"os"
 	"os/exec"
+	"runtime"
 	"strings"
+	"sync"
 	"time"
 
 	"verifmc/ev"
@@ -86,8 +88,17 @@ func Isolated(r *ev.Run, id string, timeout time.Duration) {
 			panic("isolated worker stopped by a checker guard: " + firstLines(res2.Output, 6))
 		}
 	}
+	if !strings.Contains(res2.Output, "@@HANG") && !strings.Contains(res2.Output, "fatal error:") && !res2.Hung {
+		// an ordinary panic: whose code panicked? (first frame of the panicking goroutine)
+		if f := panicFrame(res2.Output); strings.HasPrefix(f, "verifmc/") || f == "" {
+			panic("isolated worker died in checker code (checker error, not a verdict): " + firstLines(res2.Output, 8))
+		}
+	}
 	what := "died"
 	switch {
+	case strings.Contains(res2.Output, "@@HANG"):
+		i := strings.Index(res2.Output, "@@HANG")
+		what = "was stuck in one call into the code under test (" + strings.TrimSpace(strings.SplitN(res2.Output[i:], "\n", 2)[0]) + ")"
 	case res2.Hung:
 		what = "did not finish within the watchdog"
 	case strings.Contains(res2.Output, "out of memory"):
@@ -106,7 +117,11 @@ func Isolated(r *ev.Run, id string, timeout time.Duration) {
 			break
 		}
 	}
-	r.Violate(id+"/fatal/"+site, "the process exploring this property "+what+" inside coredhcp code ("+site+"): "+firstLines(res2.Output, 14), map[string]string{"worker": "isolated"})
+	kind := "fatal"
+	if strings.Contains(res2.Output, "@@HANG") {
+		kind = "hang"
+	}
+	r.Violate(id+"/"+kind+"/"+site, "the process exploring this property "+what+" inside coredhcp code ("+site+"): "+firstLines(res2.Output, 14), map[string]string{"worker": "isolated"})
 }
 
 func lastLines(s string, n int) string {
@@ -130,4 +145,100 @@ func firstLines(s string, n int) string {
 		}
 	}
 	return strings.Join(keep, " | ")
+}
+
+// ---- per-operation watchdog --------------------------------------------------------
+//
+// Code under test may loop forever or block on a lock that is never released. Workers
+// bracket every call into coredhcp with OpBegin/OpEnd; a watchdog goroutine dumps all
+// goroutine stacks and exits with status 3 when one call takes longer than the limit
+// (normal cost: microseconds to milliseconds). The driver (Isolated) re-runs the worker and
+// reports a reproducible hang as a violation.
+
+var (
+	opMu   sync.Mutex
+	opSeq  int
+	opLive = map[int]opRec{}
+	opOnce sync.Once
+)
+
+type opRec struct {
+	desc  string
+	since time.Time
+}
+
+// OpLimit is the wall-clock limit for one call into the code under test.
+var OpLimit = 30 * time.Second
+
+// OpBegin marks the start of a call into the code under test and returns the function that
+// marks its end (several goroutines of one worker may be inside calls at the same time).
+func OpBegin(desc string) func() {
+	opOnce.Do(func() {
+		go func() {
+			for {
+				time.Sleep(time.Second)
+				opMu.Lock()
+				var worst opRec
+				for _, o := range opLive {
+					if worst.desc == "" || o.since.Before(worst.since) {
+						worst = o
+					}
+				}
+				opMu.Unlock()
+				if worst.desc != "" && time.Since(worst.since) > OpLimit {
+					fmt.Printf("\n@@HANG after %s: %s\n", OpLimit, worst.desc)
+					buf := make([]byte, 4<<20)
+					n := runtime.Stack(buf, true)
+					os.Stdout.Write(hangRelevant(buf[:n]))
+					os.Exit(3)
+				}
+			}
+		}()
+	})
+	opMu.Lock()
+	opSeq++
+	id := opSeq
+	opLive[id] = opRec{desc, time.Now()}
+	opMu.Unlock()
+	return func() {
+		opMu.Lock()
+		delete(opLive, id)
+		opMu.Unlock()
+	}
+}
+
+// hangRelevant keeps the goroutines whose stacks contain coredhcp frames.
+func hangRelevant(dump []byte) []byte {
+	var out []string
+	for _, g := range strings.Split(string(dump), "\n\n") {
+		if strings.Contains(g, "github.com/coredhcp/coredhcp/") {
+			if len(g) > 2500 {
+				g = g[:2500]
+			}
+			out = append(out, g)
+		}
+		if len(out) >= 4 {
+			break
+		}
+	}
+	return []byte(strings.Join(out, "\n\n") + "\n")
+}
+
+// panicFrame returns the function in which a panic was raised: the first frame of the first
+// "[running]" goroutine that is neither the runtime nor panic machinery.
+func panicFrame(out string) string {
+	i := strings.Index(out, "[running]:")
+	if i < 0 {
+		return ""
+	}
+	for _, l := range strings.Split(out[i:], "\n")[1:] {
+		if strings.HasPrefix(l, "\t") || strings.TrimSpace(l) == "" {
+			continue
+		}
+		if strings.HasPrefix(l, "panic(") || strings.HasPrefix(l, "runtime.") || strings.HasPrefix(l, "runtime/") {
+			continue
+		}
+		return strings.TrimSpace(l)
+	}
+	return ""
 }
